@@ -767,6 +767,24 @@ def montecarlo(prog, rep):
                 ok = okv and idx == i and fb is not None
                 rep.check(bool(fb), "C16.mc", f"{q}:float-buffer", fn.where(st), "the result buffer is a float array",
                           f"the estimates are stored into {show(base)[:60]}, which takes the dtype of the argument: for integer-valued {first} every probability / quantile is truncated to an integer")
+                # zip(x, given) stops at the shorter of the two: an np.empty buffer of the length of x keeps uninitialised memory in its other rows
+                if base[0] == "call" and base[1] in (G("numpy.empty_like"), G("numpy.empty")):
+                    pcs_all = path_conditions(prog, fn, b)
+                    guarded_len = False
+                    for rs in cfg.all_stmts():
+                        if isinstance(rs, ast.Raise) and cfg.node(rs) is not None and not cfg.enclosing_loops(rs):
+                            for l in pcs_all.of(rs):
+                                while l[0] == "not":
+                                    l = l[1]
+                                if l[0] == "cmp" and l[1] in ("==", "!=") and mentions(l, P("given")) and mentions(l, P(first)) \
+                                        and all(any(w_[0] == "call" and w_[1] == G("len") or w_[0] == "attr" and w_[2] in ("shape", "size") for w_ in walk(side)) for side in l[2:4]):
+                                    guarded_len = True
+                    strict = isinstance(lp.iter, ast.Call) and any(isinstance(a_, ast.Call) and any(k.arg == "strict" and isinstance(k.value, ast.Constant) and k.value.value is True for k in a_.keywords)
+                                                                    for a_ in ast.walk(lp.iter))
+                    rep.check(guarded_len or strict, "C16.mc", f"{q}:every-point", fn.where(st), "every entry of the result is computed (values and conditioning points of unequal number are rejected)",
+                              f"the result is an np.empty buffer of the length of {first}, filled in a loop over zip({first}, given) that ends with the shorter of the two: "
+                              "conditional_icdf([0.1, 0.5, 0.9], 1, [[3.0]]) returned [5.934, 1.2345e+300, 1.2345e+300] and conditional_cdf([6.0, 6.6, 7.6], 1, [[3.0]]) "
+                              "[0.12857, 6.595, 7.547] - whatever the memory held, 'probabilities' above 1 included; raise ValueError for unequal lengths (the check is commented out)")
                 why = (f"point i must be estimated from conditional_sample(n, dim, given_i, random_state=random_state) of the SAME i and stored at index i "
                        f"({'fraction of the sample <= x_i' if red == 'cdf' else 'np.quantile(sample, p_i)'}); found [{show(idx)[:30]}] = {show(v)[:160]}")
         rep.check(ok, "C16.mc", f"{q}:per-point", fn.where(), f"{'(sample <= x_i).sum()/len(sample)' if red == 'cdf' else 'quantile(sample, p_i)'} with sample conditioned on given_i, stored at i", why)
